@@ -361,3 +361,78 @@ func genAfterLine() []Case {
 	}
 	return cases
 }
+
+// ---------------------------------------------------------------- several banners in one answer
+
+// multiReply: the answer to line l (output out) with two banners m1, m2 in the given shape.
+// Letters as in Behav.Form: A before the echo with a fresh prompt, B inside the echo, C after the
+// output with a fresh prompt, D after the output without one.
+func multiReply(l, out, shape, m1, m2 string) string {
+	body := strings.TrimSuffix(l+"\n"+out, "\n")
+	switch shape {
+	case "DD":
+		return body + bannerText(m1) + bannerText(m2) + "\n" + prompt
+	case "BB":
+		return l[:3] + bannerText(m1) + l[3:6] + bannerText(m2) + l[6:] + "\n" + out + prompt
+	case "BD":
+		return l[:3] + bannerText(m1) + strings.TrimSuffix(l[3:]+"\n"+out, "\n") + bannerText(m2) + "\n" + prompt
+	case "AD":
+		return bannerText(m1) + "\n" + prompt + body + bannerText(m2) + "\n" + prompt
+	case "AC":
+		return bannerText(m1) + "\n" + prompt + body + bannerText(m2) + "\n" + prompt + "\n" + prompt
+	case "AA":
+		return bannerText(m1) + "\n" + prompt + bannerText(m2) + "\n" + prompt + l + "\n" + out + prompt
+	}
+	panic("shape")
+}
+
+var multiShapes = []string{"DD", "BB", "BD", "AD", "AC", "AA"}
+
+// genMulti: two banners in the answer to ONE change line (2:00 then 1:00, 1:00 then 2:00, …), and
+// two warnings while `sh run` prints a long configuration (a reload scheduled by someone else).
+func genMulti(thorough bool) []Case {
+	var cases []Case
+	dev, tgt := buildBase("ar")
+	lines := physLines(dev, tgt)
+	l := lines[1] // the single (not joined) line
+	pairs := [][2]string{{msg2, msg1}, {msg1, msg2}}
+	if thorough {
+		pairs = append(pairs, [2]string{msg1, msg1}, [2]string{msg2, msg2}, [2]string{msg2, msgA})
+	}
+	for _, na := range []bool{false, true} {
+		for _, sh := range multiShapes {
+			for _, pr := range pairs {
+				for oi, out := range []string{"", "INFO: ignored text\n"} {
+					if oi > 0 && !thorough && na {
+						continue
+					}
+					cases = append(cases, Case{Device: dev, Target: tgt, NoAsk: na,
+						Behav:           map[string]Behav{l: {Out: out}},
+						Special:         map[string][]string{l: {multiReply(l, out, sh, pr[0], pr[1])}},
+						SpecialIsBanner: "multi", Multi: &Multi{Line: l, Shape: sh, Msgs: []string{pr[0], pr[1]}}})
+				}
+			}
+		}
+	}
+	// a long configuration: 120 routes both sides agree on, the differences of "ar" at the end
+	var long []string
+	for i := 0; i < 120; i++ {
+		long = append(long, fmt.Sprintf("ip route 10.%d.%d.0 255.255.255.0 10.7.7.7", 100+i/100, i%100))
+	}
+	ldev := append(append([]string{}, long...), dev...)
+	ltgt := append(append([]string{}, long...), tgt...)
+	cfg := func(b1, b2 string) string {
+		return "sh run\n" + strings.Join(ldev[:40], "\n") + b1 + strings.Join(ldev[40:90], "\n") + b2 + strings.Join(ldev[90:], "\n") + "\n" + prompt
+	}
+	for _, pr := range pairs[:2] {
+		// the banner ends the line before it (its first line end) and is followed by the next line
+		cases = append(cases, Case{Device: ldev, Target: ltgt, Behav: map[string]Behav{},
+			Special:         map[string][]string{"sh run": {cfg(bannerText(pr[0]), bannerText(pr[1]))}},
+			SpecialIsBanner: "multi", Multi: &Multi{Line: "sh run", Shape: "shrun-plain", Msgs: []string{pr[0], pr[1]}}})
+		// the same with a fresh prompt after each banner (logging synchronous of an earlier session)
+		cases = append(cases, Case{Device: ldev, Target: ltgt, Behav: map[string]Behav{},
+			Special:         map[string][]string{"sh run": {cfg(bannerText(pr[0])+"\n"+prompt, bannerText(pr[1])+"\n"+prompt)}},
+			SpecialIsBanner: "multi", Multi: &Multi{Line: "sh run", Shape: "shrun-prompt", Msgs: []string{pr[0], pr[1]}}})
+	}
+	return cases
+}
